@@ -190,7 +190,7 @@ def _source(case_src):
     pts = {}
     vals = VALS[vi:] + VALS[:vi]
     k = 0
-    xmax = 2.5 + shift
+    xmax = max(2.5, (npts + 2) * 0.5) + shift
     xmin = xmin + shift
 
     def mk():
@@ -432,6 +432,12 @@ def parts(tier):
                     yield (("syn", nform, npts, 0, " ", True, xmin), ())
             yield (("syn", 2, 2, 3, "", True, xmin), ((("oral_formants", "formants"), FUNCS[0]),))
             yield (("syn", 2, 2, 3, "", True, xmin), ((("pitch",), FUNCS[1]), (("oral_formants", "bandwidths", "bandwidths [1]"), FUNCS[3])))
+        # the size axis: ten and more formants (two-digit indices), ten and more points per tier
+        for nform in (9, 10, 11, 12, 25):
+            for npts in (1, 10, 12):
+                yield (("syn", nform, npts, 0, " ", True), ())
+            yield (("syn", nform, 2, 3, "", True), ((("oral_formants", "formants"), FUNCS[0]),))
+            yield (("syn", nform, 11, 3, "", True), ((("oral_formants", "bandwidths", "bandwidths [%d]" % nform), FUNCS[1]), (("pitch",), FUNCS[3])))
         # the whole time domain far from zero (2**30 s) with a fractional start: nothing may be taken for a whole number
         for xmin in (0.25, 2.0 ** -10, 0):
             for npts in (0, 2):
@@ -471,11 +477,16 @@ def parts(tier):
                 for lo, hi in ((0, None), (0.0, 10.0), (1e-05, 3), (0.5, 1e16), (0, 0)):
                     for cls in ("PointProcess", "PitchTier", "DurationTier"):
                         yield (cls, pts, lo, hi)
+        for n in (9, 10, 11, 12, 100, 257, 300):  # the size axis: two- and three-digit point indices
+            pts = tuple(PNUM[3] + 0.25 * i for i in range(n))
+            for cls in ("PointProcess", "PitchTier", "DurationTier"):
+                yield (cls, pts, 0, None)
+                yield (cls, pts, 0.0, 100.0)
 
     return [
         InputPart("klattgrid", gen_klatt, _check_klatt,
                   rule="synthetic KlattGrids (independent Praat-layout writer; 1-3 formants x 0-3 points per tier x value rotations x trailing "
-                       "blanks x final newline; time domains starting at 0 and at 5 other values) and the reference KlattGrid: open, compare with what the file encodes, apply 0-2 "
+                       "blanks x final newline; also 9-25 formants with 1-12 points per tier; time domains starting at 0 and at 5 other values) and the reference KlattGrid: open, compare with what the file encodes, apply 0-2 "
                        "modifications (every addressed tier x 9 functions; all pairs on distinct tiers), save, reopen, compare every span, "
                        "time and value digit for digit, call counts, untouched tiers; non-trivial = distinct (source, modification list)",
                   bounds={"functions": len(FUNCS)}, chunk=4),
